@@ -323,6 +323,7 @@ fn gen_case(p: &mut Prng, arch: Arch, kind: u64) -> Case {
                     _ => {}
                 }
             }
+            crate::pe::pad_chains(p, &mut specs, true);
             let image_base: u64 = *p.pick(&[0x1_4000_0000u64, 0x40_0000]);
             let m = ModSpec {
                 start: image_base + 0x1000,
